@@ -6,7 +6,12 @@
   request of connection `c` — sent directly, queued in MULTI and run by EXEC, run from a script, or completed
   later as a blocking pop — and decides WHICH `i` every command gets.  `Switches.fixed` is the prescribed
   machine; `codeSwitches` (Proofs/DbsCode.lean) is the machine as /repo's source has it today, read off the
-  dispatch table that the translator regenerates on every run (Gen/Dispatch.lean).  Every store access of the
+  dispatch table that the translator regenerates on every run (Gen/Dispatch.lean).  Since /repo commits b74cb7f
+  (EVALSHA passes `db`), 0c66cae (script FLUSHDB/DBSIZE/KEYS get `db`) and 2147747 (SELECT inside MULTI) the two
+  coincide (`code_is_the_spec`, re-proved against the regenerated table on every run), so every theorem about the
+  prescribed machine is a theorem about the code variant; the `…_fails` witnesses and `…_partial` theorems are kept
+  as statements about the OLD switch values (they describe what each of those commits repaired, and what a
+  regression would bring back).  Every store access of the
   machine is logged with the database used (`db`) and the database the property prescribes (`sel`: the
   selection of the connection at that moment; for a served blocking pop the database recorded when it blocked).
 
@@ -64,8 +69,8 @@ theorem fixed_paths_use_selection (q : Quirks) (st : State) (evs : List Dbs.Ev) 
   · exact absurd h.1 (by simp [Switches.fixed])
   · exact absurd h.1 (by simp [Switches.fixed])
 
-/-- The code as it is (any switches): an access uses another database than the prescribed one only on the
-    script path, and then it is database 0 — through EVALSHA, or for FLUSHDB/DBSIZE/KEYS inside any script. -/
+/-- Any switches (the code as it was, and any regression of that kind): an access uses another database than the
+    prescribed one only on the script path, and then it is database 0 — through EVALSHA, or for FLUSHDB/DBSIZE/KEYS inside any script. -/
 theorem code_paths_use_selection_partial (w : Switches) (q : Quirks) (st : State) (evs : List Dbs.Ev) :
     ∃ as, (run w q st evs).log = st.log ++ as ∧
       ∀ a ∈ as, a.db ≠ a.sel →
@@ -99,7 +104,7 @@ theorem conn_step_frame (q : Quirks) (st : State) (now c i j : Nat) (r : Req)
   simp only [concerns, hf, Bool.or_false, beq_eq_false_iff_ne, ne_eq]
   rw [hdb, hs]; exact fun e => hj e.symm
 
-/-- The same for the code as it is (any switches), outside the deviations: when the connection has database 0
+/-- The same for any switches, outside the deviations: when the connection has database 0
     selected, or when the request (and the queue) contains no script. -/
 theorem conn_step_frame_partial (w : Switches) (q : Quirks) (st : State) (now c i j : Nat) (ns : Bool) (r : Req)
     (hsel : (st.conns c).db = i) (hw : st.wakes = [])
@@ -146,7 +151,7 @@ theorem isolation_over_histories (q : Quirks) (st : State) (evs : List Dbs.Ev) (
     simp [concerns, hdb]
   rw [this]
 
-/-- The code as it is equals the prescribed machine — same replies, same deliveries, same post-state — on every
+/-- Any switch setting equals the prescribed machine — same replies, same deliveries, same post-state — on every
     request outside the three deviations: no EVALSHA, no FLUSHDB/DBSIZE/KEYS inside a script, no SELECT waiting in
     the queue of a transaction (each only as far as the corresponding switch is on). -/
 theorem code_is_spec_partial (w : Switches) (q : Quirks) (st : State) (now c : Nat) (r : Req)
@@ -258,13 +263,7 @@ def dataNames : List String :=
 def nonDataNames : List String :=
   ["VERIF", "PING", "ECHO", "SELECT", "FLUSHALL", "SLEEP", "CONFIG", "SAVE", "BGSAVE", "LASTSAVE", "BGREWRITEAOF", "INFO", "SLOWLOG",
    "CLIENT", "AUTH", "REPLICAOF", "SLAVEOF", "SYNC", "PSYNC", "QUIT", "COMMAND", "SHUTDOWN", "SCRIPT",
-   "PUBLISH"]   -- PUBLISH: no arm today; the proposed C07_2 patch adds one (a queued PUBLISH run by EXEC), no key space involved
-
-/-- data commands whose dispatch arm is KNOWN not to pass `db` (listed findings; must be emptied by the fix) -/
-def knownNoDb : List String := ["EVALSHA"]
-/-- the other two deviations as the source has them today (flipped by the fixes) -/
-def knownExecSelectNoop : Bool := true
-def knownScriptDbCmdsDb0 : Bool := true
+   "PUBLISH"]   -- PUBLISH has an arm since b37919c (a queued PUBLISH run by EXEC); no key space involved
 
 /-- Every arm of the dispatch is classified: a command added to the server without deciding whether it touches
     the key space breaks this theorem. -/
@@ -272,12 +271,12 @@ theorem every_command_classified : ∀ c ∈ Gen.Dispatch.dispatch, c.1 ∈ data
 
 theorem classification_disjoint : ∀ n ∈ dataNames, n ∉ nonDataNames := by decide
 
-/-- Every data command is handed the database the connection has selected — apart from the listed exceptions. -/
-theorem every_data_command_gets_db : ∀ c ∈ Gen.Dispatch.dispatch, c.1 ∈ dataNames → c.1 ∉ knownNoDb → c.2 = true := by decide
+/-- Every data command is handed the database the connection has selected — full statement, no exception list
+    (until b74cb7f the EVALSHA arm was the one exception; dropping `db` from any data arm breaks this theorem). -/
+theorem every_data_command_gets_db : ∀ c ∈ Gen.Dispatch.dispatch, c.1 ∈ dataNames → c.2 = true := by decide
 
-/-- … and the listed exceptions are real (witness): today the EVALSHA arm does not mention `db`. Once it does,
-    this fails until `knownNoDb` is emptied, which turns the previous theorem into the full statement. -/
-theorem known_exceptions_are_real : ∀ n ∈ knownNoDb, (n, false) ∈ Gen.Dispatch.dispatch := by decide
+/-- in particular both script entry points -/
+theorem eval_and_evalsha_get_db : ("EVAL", true) ∈ Gen.Dispatch.dispatch ∧ ("EVALSHA", true) ∈ Gen.Dispatch.dispatch := by decide
 
 /-- no data command is answered before the dispatch (where no database index is in sight) -/
 theorem pre_dispatch_not_data : ∀ n ∈ Gen.Dispatch.preDispatch, n ∉ dataNames := by decide
@@ -285,11 +284,32 @@ theorem pre_dispatch_not_data : ∀ n ∈ Gen.Dispatch.preDispatch, n ∉ dataNa
 /-- every command of the key-space machine is an arm of the server's dispatch -/
 theorem model_vocabulary_dispatched : ∀ n ∈ KS.cmdNames, (n, true) ∈ Gen.Dispatch.dispatch ∨ (n, false) ∈ Gen.Dispatch.dispatch := by decide
 
-/-- the switches of the code variant are exactly the listed deviations; 16 databases, one blocking registry each -/
-theorem code_switches_are_the_listed_deviations :
-    codeSwitches = { evalshaDb0 := knownNoDb.contains "EVALSHA", scriptDbCmdsDb0 := knownScriptDbCmdsDb0,
-                     execSelectNoop := knownExecSelectNoop } ∧
+/-- The code variant IS the prescribed machine: read off the regenerated tables, no switch is on (EVALSHA's arm passes
+    `db`, `execute_database` gets `db`, `handle_exec` executes a queued SELECT on the real connection); 16 databases,
+    one blocking registry each.  A regression at any of the three sites flips a generated constant and breaks this. -/
+theorem code_is_the_spec :
+    codeSwitches = Switches.fixed ∧
     Gen.Dispatch.numDatabases = numDbs ∧ Gen.Dispatch.blockingRegistries = numDbs ∧ emptyStore.length = numDbs := by decide
+
+/-- Hence, for the machine as the source has it today: every access of every history, on all four paths, uses the
+    database prescribed for it … -/
+theorem code_paths_use_selection (q : Quirks) (st : State) (evs : List Dbs.Ev) :
+    ∃ as, (run codeSwitches q st evs).log = st.log ++ as ∧ ∀ a ∈ as, a.db = a.sel := by
+  rw [code_is_the_spec.1]; exact fixed_paths_use_selection q st evs
+
+/-- … the numbered databases are isolated over arbitrary interleaved histories … -/
+theorem code_isolation_over_histories (q : Quirks) (st : State) (evs : List Dbs.Ev) (j : Nat) :
+    ∃ as, (run codeSwitches q st evs).log = st.log ++ as ∧
+      getDb (run codeSwitches q st evs).store j =
+        getDb (runAcc q st.store (as.filter fun a => a.sel == j || isFlushAll a.cmd)) j := by
+  rw [code_is_the_spec.1]; exact isolation_over_histories q st evs j
+
+/-- … and a request that neither selects nor flushes everything leaves every database but the selected one untouched. -/
+theorem code_conn_step_frame (q : Quirks) (st : State) (now c i j : Nat) (r : Req)
+    (hsel : (st.conns c).db = i) (hw : st.wakes = [])
+    (hr : Clean false r) (hq : reqName r = "EXEC" → ∀ x ∈ (st.conns c).queue, Clean false x) (hj : j ≠ i) :
+    getDb (exec codeSwitches q st now c r).1.store j = getDb st.store j := by
+  rw [code_is_the_spec.1]; exact conn_step_frame q st now c i j r hsel hw hr hq hj
 
 /-! ### 6. SELECT inside MULTI -/
 
@@ -316,8 +336,9 @@ def selectInMultiWitness : List Dbs.Ev :=
   [⟨1000, 1, .plain [wMULTI] none⟩, ⟨1000, 1, .plain [wSELECT, [49]] none⟩, ⟨1000, 1, .plain [wSET, [107], [118]] none⟩,
    ⟨1000, 1, .plain [wEXEC] none⟩]
 
-/-- The code as it is violates it (witness, replayed on the server by lib/c18.py): EXEC re-dispatches with connection
-    id 0, the queued SELECT answers OK and selects nothing — `k` lands in database 0, database 1 stays empty and
+/-- The code before commit 2147747 (switch `execSelectNoop`) violated it (witness, replayed on the server by lib/c18.py's
+    corpus, where it must now behave as prescribed): EXEC re-dispatched with connection id 0, the queued SELECT answered OK
+    and selected nothing — `k` lands in database 0, database 1 stays empty and
     the selection is still 0; the prescribed machine puts `k` into database 1 and leaves 1 selected. -/
 theorem select_in_multi_fails :
     ((run { execSelectNoop := true } {} {} selectInMultiWitness).conns 1).db = 0 ∧
@@ -327,7 +348,7 @@ theorem select_in_multi_fails :
     getDb (run Switches.fixed {} {} selectInMultiWitness).store 1 = [([107], ⟨.str [118], none⟩)] ∧
     getDb (run Switches.fixed {} {} selectInMultiWitness).store 0 = [] := by decide
 
-/-- What does hold for the code as it is: a transaction whose queue contains no SELECT is executed exactly as prescribed. -/
+/-- What did hold for that code: a transaction whose queue contains no SELECT was executed exactly as prescribed. -/
 theorem select_in_multi_partial (q : Quirks) (st : State) (now c : Nat) (r : Req)
     (hq : ∀ x ∈ (st.conns c).queue, ∀ a o, x = .plain a o → nameOf a ≠ "SELECT") :
     exec { execSelectNoop := true } q st now c r = exec Switches.fixed q st now c r := by
@@ -345,8 +366,8 @@ theorem select_in_multi_partial (q : Quirks) (st : State) (now c : Nat) (r : Req
 /-- `SELECT 3` by connection 1 -/
 def select3 : List Dbs.Ev := [⟨1000, 1, .plain [wSELECT, [51]] none⟩]
 
-/-- EVALSHA on database 0 violates the frame rule of the connection machine (the exact negation of `conn_step_frame`
-    for that switch): connection 1 has database 3 selected, its EVALSHA of a script doing `SET k v` changes database 0
+/-- EVALSHA on database 0 (switch `evalshaDb0`, the code before commit b74cb7f) violates the frame rule of the connection
+    machine (the exact negation of `conn_step_frame` for that switch): connection 1 has database 3 selected, its EVALSHA of a script doing `SET k v` changes database 0
     and leaves database 3 empty. -/
 theorem evalsha_isolation_fails :
     ∃ (st : State) (now c i j : Nat) (r : Req),
@@ -362,7 +383,8 @@ theorem evalsha_isolation_fails :
 def twoDbs : List Dbs.Ev :=
   [⟨1000, 2, .plain [wSET, [122], [49]] none⟩, ⟨1000, 1, .plain [wSELECT, [51]] none⟩, ⟨1000, 1, .plain [wSET, [116], [49]] none⟩]
 
-/-- FLUSHDB / DBSIZE from a script act on database 0 (same negation, for the second switch): with database 3
+/-- FLUSHDB / DBSIZE from a script acting on database 0 (switch `scriptDbCmdsDb0`, the code before commit 0c66cae;
+    same negation, for the second switch): with database 3
     selected, `EVAL "return redis.call('FLUSHDB')" 0` empties database 0 and leaves database 3 as it was, and
     `redis.call('DBSIZE')` counts database 0. -/
 theorem script_flushdb_isolation_fails :
